@@ -260,6 +260,15 @@ type vmH struct {
 	m      *vmModel
 	nkeys  int
 	sizeFn func() uint64 // source of Create sizes (full range or restricted)
+
+	sawOutOfScope bool // ghost
+}
+
+func (h *vmH) noteClass(c int) int {
+	if c == vrOutOfScope {
+		h.sawOutOfScope = true
+	}
+	return c
 }
 
 func vmScopeOf(i int) storelib.BlobScope {
@@ -341,7 +350,7 @@ func (h *vmH) do(op, k int, scope storelib.BlobScope) {
 		}
 	case voOpen:
 		f, err := v.Open(key)
-		verif.Assert("open-result", vmClass(err) == m.open(k, scope))
+		verif.Assert("open-result", vmClass(err) == h.noteClass(m.open(k, scope)))
 		if err == nil {
 			f.Close()
 		}
